@@ -115,12 +115,18 @@ class Spec:
 
 def judge(nb, nd, case, line):
     """Evaluate the property on the implementation's observation line.  Returns None if it
-    holds at every step, else a string describing the first failure."""
+    holds at every step, else a string describing the first failure.
+    Two layers: (1) the counting equation on the implementation's OWN observations (useCount =
+    creator + handles that point at the object, destroyed iff that is 0, once); (2) the
+    specified effect of every operation on the handles (Sim below: a copy leaves the source
+    alone, a move leaves the source EMPTY, an assignment replaces the destination's target), from
+    which follows which object must be released *by this very operation*."""
     toks = case.split()
     steps = line.split(" ; ") if line else []
     if len(steps) != len(toks):
         return "harness printed %d steps for %d operations (died?)" % (len(steps), len(toks))
-    sp = Spec(nb, nd)
+    sp = Sim(nb, nd)
+    dead_seen = []
     for i, (tok, st) in enumerate(zip(toks, steps)):
         parts = st.split("|")
         if len(parts) != 4:
@@ -129,11 +135,26 @@ def judge(nb, nd, case, line):
         want_ok = sp.legal(tok)
         if (flag == "ok") != want_ok:
             return "step %d (%s): executed=%s but the client's contract says legal=%s" % (i, tok, flag, want_ok)
-        sp.apply_flags(tok, want_ok)
+        ftok = tok.split(":")
+        selfmove = want_ok and ftok[0] == "ma" and ftok[1] == ftok[2]
+        keep = None
+        if selfmove:
+            # x = std::move(x): the property holds whether the handle keeps its target or is emptied
+            # (the code on HEAD empties it, which is what the Coq model says); accept either here
+            keep = Sim(nb, nd)
+            keep.creator = list(sp.creator); keep.kind = list(sp.kind); keep.live = list(sp.live)
+            keep.ptr = list(sp.ptr); keep.alive = list(sp.alive)
+        sp.step(tok)
         hl = hs.split(",") if hs else []
         ol = objs.split(",") if objs else []
+        if keep is not None:
+            h0 = int(ftok[1])
+            if h0 < len(hl) and hl[h0] not in (".", "0", "?") and keep.ptr[h0] is not None and hl[h0].rstrip("!") == str(keep.ptr[h0] + 1):
+                sp = keep
         if len(ol) != len(sp.creator):
             return "step %d: %d objects observed, %d created" % (i, len(ol), len(sp.creator))
+        while len(dead_seen) < len(ol):
+            dead_seen.append(False)
         ptrs = []
         for h, v in enumerate(hl):
             if (v != ".") != sp.live[h]:
@@ -152,10 +173,10 @@ def judge(nb, nd, case, line):
                 if want != 0:
                     return ("step %d (%s): object %d destroyed while referenced (creator %d + handles %d)"
                             % (i, tok, o, sp.creator[o], nhandles))
-                sp.alive[o] = False
+                dead_seen[o] = True
             else:
                 c = int(v[1:])
-                if not sp.alive[o]:
+                if dead_seen[o]:
                     return "step %d: object %d observed alive after its destruction" % (i, o)
                 if want == 0:
                     return "step %d (%s): object %d not destroyed although nothing references it (useCount %d)" % (i, tok, o, c)
@@ -171,6 +192,21 @@ def judge(nb, nd, case, line):
                     exp.append("e" if ptrs[a] == ptrs[b] else "n")
         if "".join(exp) != cmps:
             return "step %d (%s): comparisons %r, required %r (==, !=, < must follow object identity)" % (i, tok, cmps, "".join(exp))
+        # (2) the operation's specified effect on the handles, and the release it implies
+        for h in range(n):
+            if sp.live[h] and ptrs[h] != sp.ptr[h]:
+                show = lambda p: "null" if p is None else "object %d" % p
+                role = ""
+                f = tok.split(":")
+                if f[0] in ("ma", "mc") and len(f) > 2 and int(f[2]) == h:
+                    role = " (the moved-from handle must be empty)"
+                return ("step %d (%s): handle %d points at %s, the operation leaves it at %s%s"
+                        % (i, tok, h, show(ptrs[h]), show(sp.ptr[h]), role))
+        for o in range(len(ol)):
+            if (ol[o] == "x") != (not sp.alive[o]):
+                return ("step %d (%s): object %d is %s, but this operation %s its last reference"
+                        % (i, tok, o, "destroyed" if ol[o] == "x" else "still alive (useCount %s)" % ol[o][1:],
+                           "did not release" if ol[o] == "x" else "released"))
     return None
 
 
@@ -339,6 +375,9 @@ def gen_state_canonical(nb, nd, kinds, depth):
 
 
 HAND = [   # the histories the design calls out
+    # seed C08-7's demo: a = std::move(b) with non-empty a and a named b that stays alive; then move from the emptied b
+    "cB cB rc:0:0 rc:1:1 rd:0 ma:0:1 rc:2:1 ma:2:1 dt:0 dt:1 dt:2 rd:1",
+    "cD cD rc:3:0 rc:4:1 rd:0 ma:3:4 dt:4 dt:3 rd:1",
     "cB rc:0:0 rd:0 ca:0:0",                       # self-assignment at count 1
     "cB rc:0:0 rd:0 ra:0:0",                       # raw self-assignment at count 1
     "cB rc:0:0 rd:0 ma:0:0",                       # self-move at count 1
@@ -447,6 +486,7 @@ def run(ctx):
         exh += deep
     groups = [("5-handles", NB, ND, corp + rnd), ("3-handles", XB, XD, exh)]
     nmis = 0
+    noracle = 0
     reported = False
     for gname, nb, nd, cases in groups:
         mism, crashes, mlines = vlib.differential(ctx, cases, model, [(gname, exe, ["seq", str(nb), str(nd)])],
@@ -490,6 +530,19 @@ def run(ctx):
                 reported = True
         if reported:
             continue
+        # the independent oracle is evaluated on EVERY observation line of the implementation,
+        # whether or not the model agrees with it
+        rc2, ilines, ierr = vlib.run_lines(ctx, exe, ["seq", str(nb), str(nd)], cases)
+        if rc2 == 0:
+            noracle += len(cases)
+            for c, il in zip(cases, ilines):
+                why = judge(nb, nd, c, il)
+                if why is not None:
+                    report(c, why)
+                    reported = True
+                    break
+        if reported:
+            continue
         harmless = []
         for (i, label, il, ml) in mism[:200]:
             why = judge(nb, nd, cases[i], il)
@@ -513,6 +566,7 @@ def run(ctx):
                                 "(state, operation) pair that any history of %d operations passes through)"
                                 " + %d seeded histories of 5 operations" % (cdepth, nstates, cdepth - 1, ncanon, cdepth, ndeep)))
     ctx.cov["mismatches"] = nmis
+    ctx.cov["oracle_evaluated_histories"] = noracle
     ctx.rule = ("histories of create / default, copy, move, converting (from lvalue, rvalue and temporary of another handle type, to const T), raw constructor / destructor / copy, move, raw, converting assignment "
                 "(self-assignment and null included) / explicit refInc, refDec over 3 objects x 5 handles (random, length <= 40, 4% calls "
                 "outside the contract which both sides must reject) and over 2 objects x 3 handles (exhaustive to the stated depth); after every step "
